@@ -9,7 +9,7 @@ from .. import gen
 
 LEVEL = 'exploration'
 RULE = ("Window size k in 1..8 (thorough ..64) and float streams of length up to 4k+3 (so beyond k and beyond 2k by construction); "
-        "after every update - or, in part of the cases, only at SPARSE read positions - mean/var/std/get()/call are compared with NumPy statistics of values[-min(n,k):] within "
+        "(ints, floats, bools, NumPy float/signed/unsigned scalars in mixtures, or handed over in one reused 0-d array buffer); after every update - or, in part of the cases, only at SPARSE read positions - mean/var/std/get()/call are compared with NumPy statistics of values[-min(n,k):] within "
         "8*k*eps*max|v| (squared for var). Construction itself is part of the property: an exception in the constructor or in "
         "update is a violation. Non-trivial: n >= 2k+1 with pairwise distinct values; distinct by case digest.")
 ASSUMPTIONS = ["only the installed NumPy (2.x) can be exercised for 'supported NumPy versions'",
@@ -26,13 +26,19 @@ def run_case(case):
     eps = 2.0 ** -52
     kinds = case.get('kinds') or ['float']
     conv = {'float': float, 'int': lambda v: int(round(v)), 'f32': np.float32, 'f64': np.float64, 'i64': lambda v: np.int64(round(v)),
-            'bool': lambda v: bool(round(v) % 2)}
+            'bool': lambda v: bool(round(v) % 2), 'u8': lambda v: np.uint8(abs(round(v)) % 256), 'u64': lambda v: np.uint64(abs(round(v))),
+            'buf': float}
     typed = [conv[kinds[i % len(kinds)]](v) for i, v in enumerate(vals)]
     vals = [float(v) for v in typed]          # the values as supplied (after the caller's own conversion)
+    buf = np.zeros((), dtype=np.float64)      # kind 'buf': the value is handed over in ONE reused 0-d array (an out= buffer); it counts as supplied
     reads = case.get('reads') or [1]
     for n in range(1, len(vals) + 1):
         try:
-            t.update(typed[n - 1])
+            if kinds[(n - 1) % len(kinds)] == 'buf':
+                buf[...] = typed[n - 1]
+                t.update(buf)
+            else:
+                t.update(typed[n - 1])
             if not reads[n % len(reads)] and n < len(vals):
                 continue          # no statistic is read at this position (reads may be sparse)
             got = {'mean': t.mean, 'var': t.var, 'std': t.std, 'get': t.get(), 'call': t()}
@@ -74,7 +80,7 @@ def cases(draw, kmax):
         vals = draw(st.lists(st.one_of(gen.finite_float(1e6), st.integers(-5, 5).map(float)), min_size=n, max_size=n))
     # the supplied values are ints, floats and NumPy scalars in any mixture ("int or float")
     kinds = draw(st.sampled_from([['float'], ['float'], ['int', 'float'], ['int', 'int', 'float', 'f32'], ['f32', 'float'], ['i64', 'f64', 'float'],
-                                  ['bool', 'float', 'int']]))
+                                  ['bool', 'float', 'int'], ['u8', 'float'], ['u64', 'u8', 'i64'], ['buf'], ['buf', 'buf', 'float']]))
     return {'k': k, 'values': vals, 'kinds': kinds, 'reads': draw(st.sampled_from([[1], [1], [1, 0], [0, 0, 1], [0, 0, 0, 0, 1], [1, 0, 0, 0, 0, 0, 0]]))}
 
 
